@@ -379,6 +379,35 @@ def run_c01(prop, tier):
                               {"kind": "sequence"})
         ctx.part("sequences", depth=depth, alphabet=alpha, runs=len(progs))
         # (v) not from the initial state: the trace directory already holds the streams of an earlier run of a thread with
+        # a thread that was flushed and freed asks for tracing again under the same id: refused or not, the events of its first
+        # life stay in the stream, in order, at its beginning
+        exe97 = build_driver(build, 97)
+        zjobs = [(pre + ["Z"] + post, t) for pre in (["e0"], ["e16", "e3", "f", "e0"], ["j60", "e2"]) for post in ([], ["e0"], ["e16", "f"]) for t in (False, True)]
+
+        def one_z(j):
+            prog, t = j
+            cd = os.path.join(scratch.sub("reinit"), "c%d" % os.getpid())
+            rc, err, log = run_case(exe97, cd, prog, tmpdir=t)
+            if rc in (99, 98) or (isinstance(rc, int) and rc < 0) or rc == "timeout":
+                return "driver died: exit %r %s" % (rc, err[-300:])
+            if "FREED" not in log:
+                return "the first life did not complete: %s" % err[-200:]
+            exp, _, _ = expected_events(log[:log.index("FREED")])
+            try:
+                evs = [e for e in obs.parse(open(os.path.join(stream_path(cd), "stream.obs"), "rb").read()) if e.mcv not in ("OF[", "OF]")]
+            except (OSError, obs.ParseError) as e:
+                return "after the second ovni_thread_init() the stream is gone or unreadable: %s" % e
+            got = [(e.mcv, e.clock, bytes(e.payload), None if e.jumbo is None else bytes(e.jumbo)) for e in evs[:len(exp)]]
+            if got != [tuple(x) for x in exp]:
+                return "after the second ovni_thread_init() (%s) the stream no longer begins with the %d events of the first life: it holds %d events %r" % (
+                    "accepted" if "REINIT" in log else "refused", len(exp), len(evs), [(e.mcv, e.clock) for e in evs[:4]])
+            return None
+        for (prog, t), msg in zip(zjobs, pmap(one_z, zjobs)):
+            ctx.add(evaluations=1, transitions=len(prog), traces_validated_against_impl=1)
+            if msg:
+                ctx.violation("program %s%s: %s" % (prog, " (OVNI_TMPDIR)" if t else "", msg),
+                              {"engine": "E1 rt_driver", "bufsz": 97, "program": prog, "short": "-", "oracle": "C01", "tmpdir": t}, {"kind": "second-init"})
+        ctx.part("second-init-of-a-freed-thread", runs=len(zjobs))
         # the same pid/tid (a restarted job in a PID namespace); the second run's stream must hold the second run's events only
         first = [list(p) for p in itertools.product(alpha, repeat=2)] + [[a] for a in alpha] + [["j80", "j80", "j80", "e16:8+8"]]
         second = [[a] for a in alpha] + ([] if tier == "quick" else [list(p) for p in itertools.product(alpha[:6], repeat=2)])
